@@ -1,3 +1,4 @@
+import MdsVerif.GenFact
 import MdsVerif.Model.Mstr
 import MdsVerif.Spec.Bytes
 /-!
@@ -88,12 +89,7 @@ theorem parseInt_eq (s : List UInt8) (h : decVal (s.takeWhile sDigit) < 92233720
   have h2 : accN 0 (s.takeWhile sDigit) < two64 := by unfold two64; omega
   -- `return v, s[i:], i > 0`: the regenerated test `Gen.Small.parseIntOk`, pinned
   have hok : ∀ k : Nat, MdsVerif.Gen.Small.parseIntOk (k : Int) = decide (k > 0) := by
-    intro k; unfold MdsVerif.Gen.Small.parseIntOk
-    by_cases hk : k > 0
-    · have : (k : Int) > 0 := by omega
-      simp [hk, this]
-    · have : ¬ (k : Int) > 0 := by omega
-      simp [hk, this]
+    gen_fact MdsVerif.Gen.Small.parseIntOk
   simp only [accW_eq_accN _ (takeWhile_digits s) 0 h2, Nat.zero_add, decVal_eq, toSigned_small _ h, hok]
 
 theorem parseStr_eq : ∀ s : List UInt8,
